@@ -9,10 +9,10 @@ import (
 // Line protocol: tokens separated by one space; bytes are x<hex>; numbers decimal.
 type Line struct{ toks []string }
 
-func (l *Line) S(s string) *Line  { l.toks = append(l.toks, s); return l }
-func (l *Line) B(b []byte) *Line  { l.toks = append(l.toks, "x"+hex.EncodeToString(b)); return l }
+func (l *Line) S(s string) *Line   { l.toks = append(l.toks, s); return l }
+func (l *Line) B(b []byte) *Line   { l.toks = append(l.toks, "x"+hex.EncodeToString(b)); return l }
 func (l *Line) Str(s string) *Line { return l.B([]byte(s)) }
-func (l *Line) N(n int) *Line     { l.toks = append(l.toks, strconv.Itoa(n)); return l }
+func (l *Line) N(n int) *Line      { l.toks = append(l.toks, strconv.Itoa(n)); return l }
 func (l *Line) Bool(b bool) *Line {
 	if b {
 		return l.N(1)
